@@ -23,6 +23,12 @@ def run(chk: Check) -> None:
     prog = chk.prog
     ctx = chk.ctx
     wc = prog.module('workchains')
+    # what a checkpoint must carry / how it is handed out / what a load may depend on (obligations shared with C07 and C14)
+    from .c07 import load_is_deterministic, persisted_fields
+    from .c14 import snapshot_isolation
+    persisted_fields(chk)
+    load_is_deterministic(chk)
+    snapshot_isolation(chk)
 
     # 1. stepper reference table
     for name in ('_BlockStepper', '_IfStepper'):
